@@ -2,9 +2,9 @@ CONSTANT Users <- U1
 CONSTANT Roles <- R1
 CONSTANT Chans <- ChAB
 CONSTANT Docs <- D1
-CONSTANT ChanMenu <- CM2
-CONSTANT RoleMenu <- RM2
-CONSTANT GrantMenu <- GS2
+CONSTANT ChanMenu <- CMB
+CONSTANT RoleMenu <- RM1
+CONSTANT GrantMenu <- GR2
 CONSTANT MaxSteps = 6
 CONSTANT SplitWrite = FALSE
 CONSTANT SplitLoad = TRUE
